@@ -61,6 +61,7 @@ def run(tier):
     for r in results:
         k = classify(r)
         if k:
+            k["net"] = r.get("net_name")            # a recorded finding names the input, so another input is still reported
             bad.setdefault(json.dumps(k, sort_keys=True), []).append(r)
     distinct = set()
     for r in results:
